@@ -464,6 +464,55 @@ pub fn run(run: &Run) {
         run.set(&format!("scenario:{}", sc.name), json!({"depth_bound_completed": st.depth_completed, "unique_states": st.states, "transitions": st.transitions}));
         println!("  scenario {}: depth {} states {} transitions {}", sc.name, st.depth_completed, st.states, st.transitions);
     }
+    // stakes expiring across epoch boundaries (the stake commitment must follow the registered, unexpired stakes)
+    {
+        let mut stakes = BTreeMap::new();
+        stakes.insert(TxHash(HashVal([0x71; 32])), StakeDoc { pubkey: key(1).0, e_start: 0, e_post_end: 0, syms_staked: CoinValue(10) });
+        stakes.insert(TxHash(HashVal([0x72; 32])), StakeDoc { pubkey: key(2).0, e_start: 0, e_post_end: 1, syms_staked: CoinValue(20) });
+        stakes.insert(TxHash(HashVal([0x73; 32])), StakeDoc { pubkey: key(3).0, e_start: 1, e_post_end: 2, syms_staked: CoinValue(30) });
+        stakes.insert(TxHash(HashVal([0x74; 32])), StakeDoc { pubkey: key(1).0, e_start: 0, e_post_end: 9, syms_staked: CoinValue(40) });
+        let w = world(NetID::Custom02, out_t(1_000_000_000, melstructs::Denom::Mel), 1 << 20, 0, stakes);
+        let s = w.genesis.clone().seal(None);
+        let model = model_of(&s, &[CoinID::zero_zero()], &builtin_pool_keys(), &[]);
+        let h0 = s.header();
+        let rootn = Node { real: Real::Sealed(s), model, path: std::sync::Arc::new(vec!["genesis[Custom02+4 stakes]".into()]), trace: std::sync::Arc::new(vec![json!({"root": "Custom02 with stakes ending in epochs 0, 1, 2, 9"})]), lineage: std::sync::Arc::new(vec![h0]), salt: 0 };
+        let scratch = Run::new("scratch", "quick");
+        let eng = Engine::new(&scratch);
+        let mut cfg = AlphaCfg::base();
+        cfg.per_denom = 1;
+        cfg.adversarial = false;
+        cfg.pairs = false;
+        cfg.splits = false;
+        cfg.burns = false;
+        cfg.mints = false;
+        cfg.faucets = false;
+        cfg.overpay = false;
+        cfg.max_txs_per_block = 1;
+        cfg.seal_actions = vec![None];
+        let acts = move |n: &Node| {
+            if n.is_open() {
+                return actions(n, &cfg);
+            }
+            let mut v = vec![Action::Open];
+            if n.salt == 0 {
+                v.push(Action::Restart);
+            }
+            if let Some(j) = [199_998u64, 399_998, 599_998].iter().find(|j| **j > n.model.height) {
+                v.push(Action::Jump(*j));
+            }
+            v
+        };
+        let visit = |_n: &Node| {};
+        let on_succ = |_p: &Node, _a: &Action, c: &Node| {
+            run.transition();
+            check_sealed(run, &ctx, c);
+            run.validated();
+        };
+        let st = bfs_with(&eng, vec![rootn], if thorough { 16 } else { 13 }, 300_000, &acts, &visit, &on_succ);
+        run.states_add(st.states);
+        run.set("scenario:custom02-stakes-across-epochs", json!({"depth_bound_completed": st.depth_completed, "unique_states": st.states, "transitions": st.transitions}));
+        println!("  scenario custom02-stakes-across-epochs: depth {} states {} transitions {}", st.depth_completed, st.states, st.transitions);
+    }
     scalar_sensitivity(run);
     run.set("proofs_checked", json!(ctx.proofs_checked.load(std::sync::atomic::Ordering::Relaxed)));
     run.set("distinct_coin_contents", json!(ctx.coins.fwd.lock().len()));
